@@ -40,7 +40,9 @@ SeqNo(n, i) == [j \in 1..n |-> PoolSeq[(((i - 1) \div Pow(K, j - 1)) % K) + 1]]
 RECURSIVE IdOf(_, _)
 IdOf(s, i) == IF i > Len(s) THEN "" ELSE ToString(s[i]) \o (IF i < Len(s) THEN "." ELSE "") \o IdOf(s, i + 1)
 \* every second pool file is written in the loose layout, every third one (independently) with CRLF line terminators
-FilesOf(s) == [i \in 1..Len(s) |-> [name |-> "f" \o ToString(i) \o ".fga", header |-> Pool[s[i]].header, decls |-> Pool[s[i]].decls, conds |-> Pool[s[i]].conds,
+\* file names are taken as given, also when they are not in the form a path cleaner would write
+NamePrefix(k) == <<"", "", "./", "mods//", "x/../", "">>[(k % 6) + 1]
+FilesOf(s) == [i \in 1..Len(s) |-> [name |-> NamePrefix(s[i] + (3 * i)) \o "f" \o ToString(i) \o ".fga", header |-> Pool[s[i]].header, decls |-> Pool[s[i]].decls, conds |-> Pool[s[i]].conds,
                                     loose |-> (s[i] + i) % 2 = 0,
                                     eol |-> IF (s[i] + (2 * i)) % 3 = 0 THEN "\r\n" ELSE "\n", cont |-> s[i] = 21]]
 RECURSIVE Off(_)
